@@ -215,3 +215,7 @@ mod tests {
         test_commons::container_multiple_producers_and_consumers_single_in_and_out(queue.queue_name(), |e| queue.enqueue(e).is_none(), || queue.dequeue());
     }
 }
+
+/// verification hook (compiled only under `cargo kani` or `--cfg reactive_mutiny_verif`): harnesses live outside this repository
+#[cfg(any(kani, reactive_mutiny_verif))]
+mod verif_hooks { include!(concat!(env!("REACTIVE_MUTINY_VERIF_DIR"), "/kani/atomic_non_blocking_queue.rs")); }
